@@ -121,6 +121,9 @@ def console_script(workdir):
     return p
 
 
+CONSOLE_SCRIPT = {"path": None}      # written once, before any worker thread forks (avoids ETXTBSY)
+
+
 def run_entry(entry, argv, workdir, env_extra=None):
     env = {k: v for k, v in os.environ.items() if not k.startswith("PYTHON")}
     env.update({"PYTHONPATH": REPO, "PYTHONIOENCODING": "utf-8", "PYTHONDONTWRITEBYTECODE": "1"})
@@ -141,7 +144,7 @@ def run_entry(entry, argv, workdir, env_extra=None):
         status = 0 if ret in (None, 0, False) else 1
         return status, p.stdout.replace(m.group(0), "") + p.stderr
     if entry == "console_script":
-        cmd = [console_script(workdir)] + argv
+        cmd = [CONSOLE_SCRIPT["path"]] + argv
     elif entry == "python_m_package":
         cmd = [sys.executable, "-W", "ignore", "-m", "conda_content_trust"] + argv
     else:
@@ -174,8 +177,13 @@ def check(run):
         with open(os.path.join(sslib_dir, rel), "w") as f:
             f.write(src)
     harness_dir = os.path.dirname(os.path.dirname(os.path.dirname(os.path.abspath(__file__))))
+    CONSOLE_SCRIPT["path"] = console_script(root)
+    if CONSOLE_SCRIPT["path"] is None:
+        run.violation("pyproject.toml no longer declares the conda-content-trust console script", {"kind": "cli"})
     n = 0
     for c in table.values():      # (TLC re-evaluates Exit while checking liveness: the table is the deduplicated set)
+        if c["entry"] == "console_script" and CONSOLE_SCRIPT["path"] is None:
+            continue
         for rep in range(reps):
             n += 1
             wd = os.path.join(root, f"case{n}")
